@@ -109,6 +109,7 @@ struct GenOpt
   bool allowUcoord = true;  // operations with no spatial meaning do not get undefined coordinates
   bool allowEmpty  = true;
   bool allowSelNA  = true;
+  double pUcoord   = 0.10;  // share of the cases whose drop mechanism is "undefined coordinate"
   int minKept      = 0;     // (when not empty) lower bound on the number of kept samples
   bool positive    = false; // strictly positive values
   double pWeight   = 0.;    // probability of a weight column (ELoc::W)
@@ -138,7 +139,8 @@ inline Samples genSamples(Rng& r, const GenOpt& o)
   }
   // drop mechanism
   double u = r.u01();
-  s.by = u < 0.50 ? BY_SEL : u < 0.65 ? BY_UVAL : u < 0.75 ? BY_UCOORD : u < 0.90 ? BY_MIXED : u < 0.95 ? BY_NONE : BY_SELNA;
+  double pSel = 0.60 - o.pUcoord;
+  s.by = u < pSel ? BY_SEL : u < pSel + 0.15 ? BY_UVAL : u < 0.75 ? BY_UCOORD : u < 0.90 ? BY_MIXED : u < 0.95 ? BY_NONE : BY_SELNA;
   if (s.by == BY_SELNA && (!o.allowSelNA || avoid("selna", AVOID_SELNA))) s.by = BY_SEL;
   if ((!o.allowUcoord || avoid("ucoord", AVOID_UCOORD)) && s.by == BY_UCOORD) s.by = BY_SEL;
   s.cls.assign(s.n, KEEP);
@@ -267,7 +269,7 @@ inline std::unique_ptr<Db> mkMasked(Rng& r, const Samples& s)
       for (int d = 0; d < s.ndim; d++) x[d][i] = 1e7 * s.field * (1 + 0.01 * i) * ((i + d) % 2 ? 1 : -1);
     if (c & COORDUNDEF)
     {
-      x[r.irange(0, s.ndim - 1)][i] = TEST;
+      x[r.coin(0.5) ? 0 : r.irange(0, s.ndim - 1)][i] = TEST; // (first coordinate favoured: see genNeigh in c05_mask.cpp)
       // the value itself is defined: make a leak large
       if (!(c & ALLUNDEF))
         for (int v = 0; v < s.nvar; v++) z[v][i] = POISON_VAL * (1 + v);
